@@ -19,10 +19,11 @@ def gen_op_spec(seed, profile=None):
     st = Stream(seed, 'opcfg')
     typ = pf.get('type') or st.choice(['futures', 'spot'], 'type')
     nsym = pf.get('n_symbols') or st.wchoice([(1, 0.6), (2, 0.4)], 'nsym')
-    syms = ['BTC-USDT', 'ETH-USDT'][:nsym]
+    from .session import pick_symbols, pick_exchange_name
+    syms = pick_symbols(st, pf)[:nsym]
     spec = {
         'kind': 'ops', 'seed': seed, 'type': typ,
-        'exchange': 'Sim Spot' if typ == 'spot' else 'Sim Futures',
+        'exchange': pf.get('exchange') or pick_exchange_name(st, typ),
         'leverage': pf.get('leverage') or st.choice([1, 2, 3, 5, 10, 25, 50, 100, 125], 'lev'),
         'mode': st.choice(['cross', 'isolated'], 'mode'),
         'fee': st.choice([0.0, 0.0004, 0.001, 0.0025], 'fee'),
